@@ -43,6 +43,22 @@ def gb(x):
 
 
 @memento_function(cluster="vc", version="1")
+def gx(x):
+    REC.calls.append(("gx", x))
+    raise ValueError("gx fails for %d" % x)
+
+
+@memento_function(cluster="vc", version="1")
+def gcatch(x):
+    REC.calls.append(("gcatch", x))
+    try:
+        gx(x)
+    except ValueError:
+        return "caught"
+    return "not-raised"
+
+
+@memento_function(cluster="vc", version="1")
 def gp(x):
     """a result staged on disk while the body runs"""
     from twosigma.memento.storage_filesystem import OnDiskPartition
